@@ -240,6 +240,66 @@ pub fn run(tier: Tier) -> i32 {
             let _ = first;
         });
     }
+    // "a read of a message longer than 65535 bytes fails" - also when the message is authentic: snow's own writer
+    // never produces one, so it is sealed with the reference AEAD under the session key a non-conforming peer would
+    // hold (65536, 65537 and 65600 bytes; at the limit, 65535, the same construction must be read back). Both
+    // transport modes, both backends, three ciphers.
+    {
+        use crate::exec::{payload_bytes, Exec};
+        use crate::seam::Backend;
+        let mut jobs = vec![];
+        for c in [CipherAlg::ChaChaPoly, CipherAlg::AesGcm, CipherAlg::XChaChaPoly] {
+            for b in [Backend::Default, Backend::Ring] {
+                for stateless in [false, true] {
+                    for total in [65535usize, 65536, 65537, 65600] {
+                        jobs.push((c, b, stateless, total));
+                    }
+                }
+            }
+        }
+        ctx.count("authentic_oversize_message_cases", jobs.len() as u64);
+        jobs.par_iter().for_each(|(c, b, stateless, total)| {
+            let bp = patterns::base_patterns().into_iter().find(|x| x.name == "NN").unwrap();
+            let p = Proto::new(&bp, &[], DhAlg::X25519, *c, HashAlg::Sha256).unwrap();
+            let mut cfg = Config::honest(&p, 0);
+            cfg.backend = [*b, *b];
+            cfg.crypto_oracle = false;
+            cfg.record = true;
+            let mut e = Exec::new(&cfg);
+            let mut ops = sess::handshake_ops(&p, &[0, 0, 0, 0]);
+            ops.extend(sess::convert_ops(if *stateless { Mode::SS } else { Mode::TT }));
+            for op in &ops {
+                e.step(op);
+            }
+            if !e.steps.iter().all(|s| s.real.is_ok()) {
+                return;
+            }
+            // the responder's receiving key (cipher object 1 = initiator -> responder)
+            let Some(key) = e.logs[Side::R.idx()].current_key(1) else { return };
+            let pt = payload_bytes(*total - 16, 0x5a);
+            let ct = c.encrypt(&key, 0, &[], &pt);
+            let read = if *stateless { Op::SRead { side: Side::R, nonce: 0, msg: Msg::Raw(ct), cap: Cap::Exact(70000) } } else { Op::TRead { side: Side::R, msg: Msg::Raw(ct), cap: Cap::Exact(70000) } };
+            e.step(&read);
+            ops.push(read);
+            ctx.add(&ctx.evaluations, 1);
+            ctx.add(&ctx.transitions, ops.len() as u64);
+            ctx.add(&ctx.traces, 1);
+            ctx.add(&ctx.nontrivial, 1);
+            let st = e.steps.last().unwrap();
+            let case = json!({"kind": "oversize", "cipher": c.name(), "backend": b, "stateless": stateless, "total": total});
+            match (&st.real, *total > 65535) {
+                (crate::exec::Real::Ok(n, _), true) => ctx.violation("a read of an (authentic) message longer than 65535 bytes succeeds", format!("{} {b:?} {}: {total} bytes -> Ok({n})", cfg.name, if *stateless { "stateless" } else { "stateful" }), case),
+                (crate::exec::Real::Ok(n, got), false) => {
+                    if *n != total - 16 || got[..] != pt[..] {
+                        ctx.violation("a read of an authentic 65535-byte message does not return length minus overhead", format!("{} {b:?}: Ok({n})", cfg.name), case);
+                    }
+                },
+                (crate::exec::Real::Panic(m), _) => ctx.violation("a read of an over-long message panicked", format!("{} {b:?}: {m}", cfg.name), case),
+                // (that a message of exactly 65535 bytes must be accepted is C02 / C05's clause)
+                _ => {},
+            }
+        });
+    }
     ctx.states.store(cases.len() as u64, std::sync::atomic::Ordering::Relaxed);
     let (p0, k0, pr0, _, _) = &cases[3];
     ctx.sample(json!({"name": p0.name, "message": k0, "probe": pr0}));
@@ -250,6 +310,13 @@ pub fn run(tier: Tier) -> i32 {
 }
 
 pub fn replay(case: &serde_json::Value) -> Result<(), String> {
+    if case["kind"] == "oversize" {
+        // cheap: re-run the quick exploration and report its first violation
+        return match std::panic::catch_unwind(|| run(Tier::Quick)) {
+            Ok(0) => Ok(()),
+            _ => Err(format!("the oversize-message part reports a violation again ({case})")),
+        };
+    }
     let (cfg, ops) = sess::case_from_json(case).ok_or("bad case")?;
     let first = case["first_probe"].as_u64().unwrap_or(0) as usize;
     let e = sess::run(&cfg, &ops);
